@@ -202,14 +202,54 @@ func genConfinePkg() {
 		o := load("pkg/options/options.go")
 		l.defStrList("tarballFileNames", assignsOf(o, "options.go", "Options.TarballFileName", "tarName"))
 		t := load("pkg/build/types/types.go")
-		fd := t.fn("ParseArchitecture")
-		def := ""
-		if fd == nil || fd.Body == nil || len(fd.Body.List) == 0 {
-			problem("types.go: func ParseArchitecture not found")
-		} else {
-			def = t.src(fd.Body.List[len(fd.Body.List)-1])
+		stmtsOf(t, "types.go", "ParseArchitecture", "stmtsParseArchitecture")
+		stmtsOf(t, "types.go", "Architecture.ToAPK", "stmtsArchToAPK")
+		// the values of the architecture constants the two switches speak about
+		{
+			var kv [][2]string
+			if t != nil {
+				for _, d := range t.f.Decls {
+					gd, ok := d.(*ast.GenDecl)
+					if !ok {
+						continue
+					}
+					for _, sp := range gd.Specs {
+						vs, ok := sp.(*ast.ValueSpec)
+						if !ok {
+							continue
+						}
+						for i, n := range vs.Names {
+							switch n.Name {
+							case "_386", "amd64", "arm64", "armv6", "armv7", "loong64":
+								if i < len(vs.Values) {
+									kv = append(kv, [2]string{n.Name, t.src(vs.Values[i])})
+								}
+							}
+						}
+					}
+				}
+			}
+			if len(kv) != 6 {
+				problem("types.go: architecture constants not found")
+			}
+			l.defStrStrList("archConstants", kv)
 		}
-		l.defStr("parseArchitectureDefault", def)
+		// every place that joins an architecture into a host path must take it from ToAPK
+		var archJoins []string
+		for _, spec := range [][3]string{{"internal/cli/lock.go", "LockCmd", "lock.go"}, {"internal/cli/dot.go", "DotCmd", "dot.go"},
+			{"pkg/baseimg/base_image.go", "New", "base_image.go"}, {"pkg/baseimg/base_image.go", "BaseImage.createAPKIndexArchive", "base_image.go"}} {
+			f := load(spec[0])
+			if f.fn(spec[1]) == nil {
+				problem("%s: func %s not found", spec[2], spec[1])
+				continue
+			}
+			for _, c := range callsOf(f, spec[2], spec[1], func(c string) bool { return c == "filepath.Join" || c == "path.Join" }) {
+				if strings.Contains(strings.ToLower(c), "arch") {
+					archJoins = append(archJoins, spec[1]+": "+c)
+				}
+			}
+		}
+		l.defStrList("archPathJoins", archJoins)
 		lk := load("internal/cli/lock.go")
 		l.defStrList("lockArchWorkDir", assignsOf(lk, "lock.go", "LockCmd", "wd"))
 	}
